@@ -155,6 +155,8 @@ def _num_defs():
         'F3': lambda w: (mp.mpf(1) / 2 + 15 * w / 2) * (2 + mp.log(w)) + (mp.mpf(17) / 4 - 15 * w / 2) * f(w),
     }
 DEFS_NUM = _num_defs()
+DEFS_NUM['FPZ'] = lambda x: -2 * x * (_fps_num(x) + __import__('mpmath').log(x)) / (4 * x - 1)
+DEFS_NUM['FSZ'] = lambda x: 2 * x * (1 - 4 * x + 2 * x * _fps_num(x) + (1 - 2 * x) * __import__('mpmath').log(x)) / (4 * x - 1)
 
 # definitions as z3 terms over (z, ln z, fPS(z), Li2)
 DEFS = {
